@@ -121,6 +121,7 @@ pub mod path {
         #[verifier::external_body] pub fn join<S: PathLike>(&self, rel: S) -> (r: PathBuf) ensures r@ == path_join(self@, rel.pview()) { unimplemented!() }
         #[verifier::external_body] pub fn to_path_buf(&self) -> (r: PathBuf) ensures r@ == self@ { unimplemented!() }
     }
+    impl Clone for PathBuf { #[verifier::external_body] fn clone(&self) -> (r: PathBuf) ensures r@ == self@ { unimplemented!() } }
     impl std::ops::Deref for PathBuf { type Target = Path;
         #[verifier::external_body] fn deref(&self) -> (r: &Path) ensures r@ == self@ { unimplemented!() } }
 }
@@ -614,6 +615,10 @@ pub uninterp spec fn dir_listing(dir: Seq<char>) -> Seq<Seq<char>>;      // path
 pub uninterp spec fn is_file_spec(p: Seq<char>) -> bool;
 pub uninterp spec fn unreadable_dir(dir: Seq<char>) -> bool;
 pub uninterp spec fn file_stem_of(p: Seq<char>) -> Option<Seq<char>>;   // Path::file_stem: the file name up to its LAST dot
+// entry i of the directory is a regular file whose stem is the command name
+pub open spec fn stem_hit(dir: Seq<char>, name: Seq<char>, i: int) -> bool {
+    0 <= i < dir_listing(dir).len() && is_file_spec(dir_listing(dir)[i]) && file_stem_of(dir_listing(dir)[i]) == Some(name)
+}
 pub struct ReadDir { pub ghost dir: Seq<char> }
 pub struct DirEntry { pub ghost p: Seq<char> }
 pub struct OsStr { pub ghost s: Seq<char> }
